@@ -44,7 +44,7 @@ DEFAULT = dict(
     p_f4=0.3, p_pvars=0.4, p_release_time_pvar=0.3, p_lonlat_out=0.15,
     spellings=(("yaml2", 4), ("toml2", 1)),
     p_edge_positions=0.1,
-    dts=(60, 120, 300, 600, 900, 1800, 3600),
+    dts=(60, 120, 300, 600, 900, 1800, 3600, 60, 300, 900, 3600, 86400, 129600, 172800),   # a sixth: one day or more
     lonlat_kinds=(("linear", 3), ("stereo", 1)),
 )
 
@@ -407,7 +407,7 @@ def gen_scenario(seed: int, p: dict | None = None) -> dict:
     nsteps = s.randint(*p["nsteps"])
     rev = s.chance(p["p_reversed"])
     day = s.randint(0, 3000)
-    sec = dt * s.randint(0, 86400 // dt - 1)
+    sec = dt * s.randint(0, max(0, 86400 // dt - 1))
     start = np.datetime64("2000-01-01T00:00:00", "s") + np.timedelta64(day, "D") + np.timedelta64(sec, "s")
     T = {"start": str(start), "dt": dt, "nsteps": nsteps}
     if rev:
@@ -471,6 +471,8 @@ def gen_scenario(seed: int, p: dict | None = None) -> dict:
         g["mask"] = "open"
     # --- frames
     sc["frames"] = _frames(s, p, nsteps, rev, "stop_extra" in T)
+    if (truth.mask_rho(sc) == 0).any() and stream(seed, "gen.landfill").chance(p.get("p_land_fill", 0.25)):
+        sc["frames"]["land_fill"] = True        # fill values (1e37) on land faces and in land cells of the forcing
     # --- flow
     sc["flow"] = _flow(s, p, sc, len(sc["frames"]["offsets"]))
     # --- release, ibm, tracker, output
@@ -605,6 +607,8 @@ def features(sc) -> set[str]:
         f.add("inactive")
     if sc.get("spelling") == "toml2":
         f.add("toml")
+    if sc.get("frames", {}).get("land_fill"):
+        f.add("land_fill")
     return f
 
 
